@@ -297,6 +297,59 @@ fn exec(ctx: &mut Ctx, ev: &Ev, rng: &mut Rng) {
                 Outcome::Panicked(msg) => ctx.violate("no-panic", ev, "implies_lut", format!("implies_lut panicked: {}", msg)),
             }
         }
+        "from_vars-list" => {
+            // arbitrary variable lists: any order, repeated entries (x & x = x), ints = pos list, u64::MAX, neg list
+            let cut = ev.ints.iter().position(|x| *x == u64::MAX).expect("harness: separator");
+            let pv: Vec<usize> = ev.ints[..cut].iter().map(|x| *x as usize).collect();
+            let nv: Vec<usize> = ev.ints[cut + 1..].iter().map(|x| *x as usize).collect();
+            let want = CubeM::new(pv.iter().fold(0u32, |m, v| m | (1u32 << v)), nv.iter().fold(0u32, |m, v| m | (1u32 << v)));
+            let repeated = {
+                let mut a = pv.clone();
+                a.sort();
+                let mut b = nv.clone();
+                b.sort();
+                a.windows(2).any(|w| w[0] == w[1]) || b.windows(2).any(|w| w[0] == w[1])
+            };
+            ctx.event(&format!("from_vars-list|{}|{}", kind(&want), if repeated { "repeated-entries" } else { "distinct-entries" }), ev, !want.contradictory() && want.lits() > 0);
+            match guard(|| Cube::from_vars(&pv, &nv)) {
+                Outcome::Returned(c) => {
+                    let expect = if want.contradictory() { Cube::zero() } else { want.real() };
+                    ctx.check("constructors-agree", c == expect, ev, if repeated { "from_vars-repeated" } else { "from_vars-order" }, || {
+                        format!("from_vars({:?}, {:?}) = {:?}, expected literals pos={:#x} neg={:#x}", pv, nv, CubeM::of(&c), want.pos, want.neg)
+                    });
+                }
+                Outcome::Panicked(msg) => ctx.violate("no-panic", ev, "from_vars-list", format!("from_vars({:?}, {:?}) panicked: {}", pv, nv, msg)),
+            }
+        }
+        "iter-script" => {
+            // Iterator methods on Cube::all(n) / pos_vars() / neg_vars(): ints = pos, neg, which, 0, script pairs
+            use vmon::iterprobe as ip;
+            let m = cube_at(ev, 0);
+            let which = ev.ints[2];
+            let (_, script) = ip::ints_to_script(&ev.ints[3..]);
+            let name = ["Cube::all", "pos_vars", "neg_vars"][which as usize];
+            ctx.event(&format!("iter-script|{}", name), ev, true);
+            for k in ip::script_kinds(&script) {
+                ctx.cell_only(&format!("iter-method|{}|{}", k, name));
+            }
+            let r = guard(|| match which {
+                0 => ip::check_seq_script(&|| Cube::all(n), &|c: &Cube| vec![CubeM::of(c).pos as u64 | ((CubeM::of(c).neg as u64) << 32)], &script),
+                1 => {
+                    let c = m.real();
+                    ip::check_seq_script(&|| c.pos_vars(), &|v: &usize| vec![*v as u64], &script)
+                }
+                _ => {
+                    let c = m.real();
+                    ip::check_seq_script(&|| c.neg_vars(), &|v: &usize| vec![*v as u64], &script)
+                }
+            });
+            match r {
+                Outcome::Returned(Ok(k)) => ctx.checked("iter-methods-agree-with-sequence", k as u64),
+                Outcome::Returned(Err((i, msg))) => ctx.violate("iter-methods-agree-with-sequence", ev, name, format!(
+                    "{} (n={}, cube pos={:#x} neg={:#x}): step {} of script [{}]: {}", name, n, m.pos, m.neg, i, ip::describe_script(&script), msg)),
+                Outcome::Panicked(msg) => ctx.violate("no-panic", ev, "iter-script", format!("{} script [{}] panicked: {}", name, ip::describe_script(&script), msg)),
+            }
+        }
         other => panic!("harness: unknown op {}", other),
     }
 }
@@ -369,6 +422,15 @@ fn main() {
                         exec(ctx, &ev_cubes("single", n, &[*m]), &mut rng);
                     }
                     exec(ctx, &Ev::new("all", "Cube", n), &mut rng);
+                    // the enumeration read through Iterator methods other than next()
+                    for _ in 0..if thorough { 3000 } else { 150 } {
+                        let len = 3usize.pow(n as u32);
+                        let script = vmon::iterprobe::gen_seq_script(len, &mut rng);
+                        let mut e = ev_cubes("iter-script", n, &[CubeM::new(0, 0)]);
+                        e.ints.push(0);
+                        e.ints.extend(vmon::iterprobe::script_to_ints(false, &script));
+                        exec(ctx, &e, &mut rng);
+                    }
                     for m in 0..(1u64 << n) {
                         exec(ctx, &Ev::new("minterm", "Cube", n).int64(m), &mut rng);
                         // garbage above n must be ignored
@@ -467,6 +529,42 @@ fn main() {
                     }
                     exec(ctx, &ev_cubes("single", 32, &[a]), &mut rng);
                     exec(ctx, &ev_cubes("pair", 32, &[a, b]), &mut rng);
+                    // variable lists in arbitrary order with repeated entries
+                    {
+                        let src = if rng.bool() { d } else { a };
+                        let mut pv: Vec<u64> = (0..32u64).filter(|v| (src.pos >> v) & 1 == 1).collect();
+                        let mut nv: Vec<u64> = (0..32u64).filter(|v| (src.neg >> v) & 1 == 1).collect();
+                        for l in [&mut pv, &mut nv] {
+                            for _ in 0..rng.below(4) {
+                                if !l.is_empty() {
+                                    let x = *rng.pick(l);
+                                    l.push(x);
+                                }
+                            }
+                            if rng.chance(1, 6) {
+                                l.push(rng.below(32) as u64);
+                            }
+                            rng.shuffle(l);
+                        }
+                        let mut e = Ev::new("from_vars-list", "Cube", 32);
+                        e.ints = pv;
+                        e.ints.push(u64::MAX);
+                        e.ints.extend(nv);
+                        exec(ctx, &e, &mut rng);
+                    }
+                    // Iterator methods on the variable lists of a cube
+                    if rng.chance(1, 4) {
+                        let src = if rng.bool() { d } else { a };
+                        if !src.contradictory() {
+                            let which = 1 + rng.below(2) as u64;
+                            let len = if which == 1 { src.pos.count_ones() } else { src.neg.count_ones() } as usize;
+                            let script = vmon::iterprobe::gen_seq_script(len, &mut rng);
+                            let mut e = ev_cubes("iter-script", 32, &[src]);
+                            e.ints.push(which);
+                            e.ints.extend(vmon::iterprobe::script_to_ints(false, &script));
+                            exec(ctx, &e, &mut rng);
+                        }
+                    }
                     let c3 = wide_cube(&mut rng, 3, true);
                     let c4 = wide_cube(&mut rng, 3, true);
                     exec(ctx, &ev_cubes("chain", 32, &[a, b, c3, c4]), &mut rng);
@@ -505,6 +603,14 @@ fn main() {
         required.push(format!("all|n={}", n));
         required.push(format!("minterm|n={}", n));
     }
+    for name in ["Cube::all", "pos_vars", "neg_vars"] {
+        required.push(format!("iter-script|{}", name));
+        for k in ["nth", "skip.next", "step_by.take3", "take.count", "count", "last", "size_hint"] {
+            required.push(format!("iter-method|{}|{}", k, name));
+        }
+    }
+    required.push("from_vars-list|multi|repeated-entries".into());
+    required.push("from_vars-list|multi|distinct-entries".into());
     required.push("minterm|n=31".into());
     required.push("minterm|n=32".into());
     for n in 0..=3 {
